@@ -145,6 +145,9 @@ func C07(e *core.Env) int {
 		}
 		if !cr.Generated {
 			rep.Violation(&core.Viol{Kind: "valid_program_rejected", Case: cr.Case.Name, Summary: "program with fallible functions was rejected: " + core.Classify(cr.Gen.Stderr) + " (" + cr.Case.Features["hooks"] + ")", Detail: cr.Gen.Stderr, Dir: cr.Dir, Tags: caseTags(cr.Case)})
+		} else if !cr.Built {
+			// code that does not compile cannot propagate anything
+			rep.Violation(&core.Viol{Kind: "compile", Case: cr.Case.Name, Summary: "emitted code does not compile: " + compileClass(cr.BuildErr) + " (" + cr.Case.Features["hooks"] + ")", Detail: cr.BuildErr, Dir: cr.Dir, Tags: caseTags(cr.Case)})
 		}
 		rep.Set("wrap_modes_seen", cr.Case.Features["wrap"])
 	}
